@@ -5,9 +5,13 @@ singleton list [u] and every pair from a 12-value core for list shapes.  Oracle:
 (schema model, selection) — no expected value needed — plus "every manufactured null is explained by an error" and
 JSON-serialisability.
 """
+import enum
 import itertools
 import json
 import math
+import types
+from decimal import Decimal
+from fractions import Fraction
 
 from vf import doc, explore, harness, seeds, schema as S
 from vf.data import Scenario, Obj
@@ -28,6 +32,22 @@ def _gen():
 
 class Cls:
     pass
+
+
+class PyColor(enum.Enum):
+    RED = "r"
+    GREEN = "g"
+    PURPLE = "p"
+
+
+class PyLevel(enum.IntEnum):
+    BLUE = 3
+    ONE = 1
+
+
+class StrColor(str, enum.Enum):
+    RED = "RED"
+    MAUVE = "MAUVE"
 
 
 UNIVERSE = [
@@ -56,10 +76,16 @@ UNIVERSE = [
     ("obj", lambda: Obj(x=1, y="s", _typename="O")), ("cls", Cls), ("object", object), ("Bad", Bad),
     ("exception", lambda: Exception("as value")), ("valueerror", lambda: ValueError("v")), ("type", lambda: int),
     ("complex", lambda: 1j), ("ellipsis", lambda: ...),
+    # Python objects users mirror GraphQL values with: Enum / IntEnum / str-Enum members, exact-arithmetic numbers
+    ("pyenum-RED", lambda: PyColor.RED), ("pyenum-PURPLE", lambda: PyColor.PURPLE), ("intenum-BLUE", lambda: PyLevel.BLUE),
+    ("intenum-ONE", lambda: PyLevel.ONE), ("strenum-RED", lambda: StrColor.RED), ("strenum-MAUVE", lambda: StrColor.MAUVE),
+    ("decimal-3", lambda: Decimal("3")), ("decimal-1.5", lambda: Decimal("1.5")), ("decimal-almost-1", lambda: Decimal("0.9999999999999999999999999999")),
+    ("fraction-7/2", lambda: Fraction(7, 2)), ("fraction-3/1", lambda: Fraction(3, 1)),
+    ("mappingproxy", lambda: types.MappingProxyType({"_typename": "O", "x": 1, "y": "q"})),
 ]
 TE_LABELS = ["te-bare", "te-path", "te-locations", "te-located", "raise-te-located"]
 CORE = ["None", "1", "'abc'", "1.5", "True", "nan", "2^31", "dict-typename-O", "dict-typename-unknown", "exception",
-        "list", "'RED'", "'nullify'"]
+        "list", "'RED'", "'nullify'", "pyenum-RED", "decimal-almost-1"]
 UDICT = dict(UNIVERSE)
 
 
@@ -109,7 +135,7 @@ def conforms(kind, t, v, path, problems):
         if not (type(v) in (float, int) and math.isfinite(v)):
             problems.append(("float-not-finite-number:%s" % type(v).__name__, path))
     elif kind in ("String", "ID"):
-        if type(v) is not str:
+        if not isinstance(v, str):  # a str subclass (e.g. a str-mixin Enum member) is text and serialises as such
             problems.append(("%s-not-str:%s" % (kind.lower(), type(v).__name__), path))
     elif kind == "Boolean":
         if type(v) is not bool:
